@@ -194,7 +194,13 @@ def gen_data(R, dtype, width, n, index_like=None):
             vals = [min(max(v, int(info.min)), int(info.max)) for v in vals]
             arr = np.array(vals, dtype=dtype)
         return arr
-    bits = [[R.choice([0, 1, 2**(8 * size) - 1, 2**(8 * size - 1), 2**(8 * size - 1) - 1, R.getrandbits(8 * size)])
+    # IEEE specials matter only to the float dtypes (signalling / quiet NaNs with payloads, infinities, subnormals);
+    # for the integer dtypes they are just further patterns
+    special = {4: [0x7fa00000, 0xffa12345, 0x7f800001, 0xffbfffff, 0x7fc00001, 0x7f800000, 0xff800000, 0x00000001, 0x807fffff],
+               8: [0x7ff4000000000000, 0xfff0000000000001, 0x7ff7ffffffffffff, 0x7ff8000000000001, 0x7ff0000000000000,
+                   0xfff0000000000000, 0x0000000000000001, 0x800fffffffffffff]}.get(size, [])
+    base = [0, 1, 2**(8 * size) - 1, 2**(8 * size - 1), 2**(8 * size - 1) - 1]
+    bits = [[R.choice(base + [R.getrandbits(8 * size)] + ([R.choice(special)] * 2 if special else []))
              for _ in range(per_row)] for _ in range(n)]
     u = np.array(bits, dtype=f'uint{8 * size}')
     arr = u.view(dtype)
